@@ -9,7 +9,6 @@ def jobs(tier):
 META = {
     "trusted_base": D.DFS_TRUSTED + ["the used/free computation is a statement region of CommandFree::invoke (engine/cxx2c.py region extraction); its output lambda, locale and stream-flag statements are dropped"],
     "assumptions": ["catalogue total <= 2047 sectors (11 bits incl. HDFS), at most 62 entries"],
-    "outside": ["space (three capturing lambdas), sector-map and extract-unused (SectorMap over std::map): not yet under contract",
-                "Opus volumes: `used` of an empty volume is the catalogue size of the format (2), as before"],
-    "explanation": "free: files used+free = 31/62, sectors used+free = total, used = max(catalogue sectors, one past the highest sector of any non-empty file) by loop contract with ghost entry index and witness",
+    "outside": ["the nested entry loops of space that fix the order of the runs (std::vector<std::vector<CatalogEntry>>); SectorMap itself (std::map)", "Opus volumes: `used` of an empty volume is the catalogue size of the format (2), as before"],
+    "explanation": "free: files used+free = 31/62, sectors used+free = total, used = max(catalogue sectors, one past the highest sector of any non-empty file); extract-unused: one write_span per maximal run of unowned sectors, each sector written whole in order; map_sectors labels exactly [start, start+ceil(len/256)) per file; space: run after a file starts at start+ceil(len/256), first run after the catalogue's data-area sectors, next file = last entry of the next non-empty catalogue; disc_sector_count = the catalogue's total; total sectors 11 bits on Watford DFS",
 }
